@@ -24,6 +24,7 @@ namespace
   {
     std::string backing;
     int open_errno;
+    std::vector <std::pair <long, int>> patches;
   };
 
   bool g_active = false;
@@ -31,6 +32,7 @@ namespace
   std::map <std::string, override_ent> *g_overrides;
   std::set <std::string> *g_primaries;
   std::string *g_fd_vpath[MAXFD];	// non-null: tracked and open
+  std::vector <std::pair <long, int>> const *g_fd_patches[MAXFD];
   bool g_fd_was_tracked[MAXFD];		// closed tracked fd, not reissued since
   bool g_fd_closed_by_exe[MAXFD];	// that close came from the executable
   bool g_deny_mmap = false;
@@ -78,11 +80,27 @@ namespace
       {
 	if (it->second.open_errno != 0)
 	  return it->second.open_errno;
-	realp = it->second.backing;
+	if (it->second.backing.empty ())
+	  realp = g_tests_dir + "/" + virt_rest (path);
+	else
+	  realp = it->second.backing;
 	return 0;
       }
     realp = g_tests_dir + "/" + virt_rest (path);
     return 0;
+  }
+
+  void
+  apply_patches (int fd, void *buf, ssize_t n, off_t off)
+  {
+    if (n <= 0 || fd < 0 || fd >= MAXFD || g_fd_patches[fd] == nullptr)
+      return;
+    for (auto const &p: *g_fd_patches[fd])
+      if (p.first >= off && p.first < off + n)
+	{
+	  static_cast <unsigned char *> (buf)[p.first - off] = (unsigned char) p.second;
+	  ++g_stats.patched_bytes;
+	}
   }
 
   int
@@ -121,6 +139,9 @@ namespace
 	delete g_fd_vpath[fd];
 	g_fd_vpath[fd] = new std::string (path);
 	g_fd_was_tracked[fd] = false;
+	auto it = g_overrides->find (path);
+	g_fd_patches[fd] = (it != g_overrides->end () && ! it->second.patches.empty ())
+	  ? &it->second.patches : nullptr;
       }
     return fd;
   }
@@ -171,9 +192,10 @@ fs_set_tests_dir (std::string const &dir)
 
 void
 fs_add_override (std::string const &vpath, std::string const &backing,
-		 int open_errno)
+		 int open_errno,
+		 std::vector <std::pair <long, int>> const &patches)
 {
-  (*g_overrides)[vpath] = {backing, open_errno};
+  (*g_overrides)[vpath] = {backing, open_errno, patches};
 }
 
 void
@@ -325,6 +347,7 @@ close (int fd)
       ++g_stats.closes;
       delete g_fd_vpath[fd];
       g_fd_vpath[fd] = nullptr;
+      g_fd_patches[fd] = nullptr;
       g_fd_was_tracked[fd] = true;
       g_fd_closed_by_exe[fd] = by_exe;
     }
@@ -361,6 +384,7 @@ dup (int fd)
 	{
 	  delete g_fd_vpath[nfd];
 	  g_fd_vpath[nfd] = new std::string (*g_fd_vpath[fd]);
+	  g_fd_patches[nfd] = g_fd_patches[fd];
 	}
     }
   return nfd;
@@ -387,7 +411,15 @@ read (int fd, void *buf, size_t n)
 	n = n / 2;
       break;
     }
-  return r (fd, buf, n);
+  off_t pos = (fd >= 0 && fd < MAXFD && g_fd_patches[fd] != nullptr) ? lseek (fd, 0, SEEK_CUR) : 0;
+  ssize_t got = r (fd, buf, n);
+  if (fd >= 0 && fd < MAXFD && g_fd_patches[fd] != nullptr && pos >= 0)
+    {
+      int e = errno;
+      apply_patches (fd, buf, got, pos);
+      errno = e;
+    }
+  return got;
 }
 
 static ssize_t
@@ -412,7 +444,14 @@ do_pread (char const *name, int fd, void *buf, size_t n, off_t off)
 	n = n / 2;
       break;
     }
-  return (name[5] == '6' ? r64 : r) (fd, buf, n, off);
+  ssize_t got = (name[5] == '6' ? r64 : r) (fd, buf, n, off);
+  if (fd >= 0 && fd < MAXFD && g_fd_patches[fd] != nullptr)
+    {
+      int e = errno;
+      apply_patches (fd, buf, got, off);
+      errno = e;
+    }
+  return got;
 }
 
 extern "C" ssize_t
@@ -438,7 +477,7 @@ do_mmap (bool is64, void *addr, size_t len, int prot, int flags, int fd,
       && g_fd_vpath[fd] != nullptr)
     {
       ++g_stats.mmaps;
-      if (g_deny_mmap)
+      if (g_deny_mmap || g_fd_patches[fd] != nullptr)
 	{
 	  ++g_stats.mmaps_denied;
 	  errno = ENOMEM;
